@@ -17,6 +17,16 @@ def _reexec_if_needed():
         os.execve(sys.executable, [sys.executable, "-m", "mc.runner"] + sys.argv[1:], env)
 
 
+def _replay_in_env(fn, rec):
+    """replays of violations found under a process-wide setting (e.g. DEBUG logging switched on) run under the same setting"""
+    from . import target
+    env = rec.get("replay", {}).get("env") if isinstance(rec.get("replay"), dict) else None
+    if env == "debug-logging":
+        with target.debug_logging():
+            return fn(rec)
+    return fn(rec)
+
+
 def replay(path):
     from . import target
     rec = json.load(open(path))
@@ -29,7 +39,7 @@ def replay(path):
     if fn is None:
         print(" (no replay function)")
         return 2
-    now = fn(rec)
+    now = _replay_in_env(fn, rec)
     print(" observed (now):     ", json.dumps(target.jsonable(now)))
     same = json.dumps(target.jsonable(now), sort_keys=True) == json.dumps(rec.get("observed"), sort_keys=True)
     print(" reproduces:", same)
@@ -81,8 +91,8 @@ def main(argv=None):
         fn = getattr(mod, "replay", None)
         if fn is not None:
             try:
-                r1 = target.jsonable(fn(rec))
-                r2 = target.jsonable(fn(rec))
+                r1 = target.jsonable(_replay_in_env(fn, rec))
+                r2 = target.jsonable(_replay_in_env(fn, rec))
                 rec["replayed_twice_identical"] = (r1 == r2)
                 rec["replay_reproduces"] = (json.dumps(r1, sort_keys=True) == json.dumps(rec.get("observed"), sort_keys=True))
             except Exception as e:
